@@ -334,6 +334,23 @@ with distinct criteria any other sorting permutation gives the same ranks. -/
 def getRank (p : Pop) (crit : List Int) (cond : List Bool) : Except String (List Int) :=
   getRankWith argsortE p crit cond
 
+/-- `get_rank` computed on a position matrix with `extra` more columns than the biggest group has
+members (`biggest_entity_size = numpy.max(positions) + 1 + extra`): the added columns only hold the
+`inf` padding.  `C10_rank_width_irrelevant`: the ranks are the same — the `+ 1` of the code is the
+least width that works, nothing depends on its being exact. -/
+def getRankWide (extra : Nat) (p : Pop) (crit : List Int) (cond : List Bool) : Except String (List Int) :=
+  match membersPosition p.ids with
+  | .error x => .error x
+  | .ok pos =>
+    if cond.length ≠ crit.length then .error "ValueError: operands could not be broadcast" else
+    let filtered := whereL cond (crit.map .fin) .posInf
+    match rankCols p filtered (maxL pos + 1 + extra) with
+    | .error x => .error x
+    | .ok cols =>
+      let sorted := (List.range p.n).map (fun g => argsortN (argsortE (rankRow cols g)))
+      let result := (p.ids.zip pos).map (fun gk => ((sorted.getD gk.1 []).getD gk.2 0 : Nat))
+      .ok (whereL cond (result.map Int.ofNat) (-1))
+
 /-! ## Projectors -/
 
 /-- the group populations of a simulation (all over the same persons), and for each group entity
@@ -351,8 +368,9 @@ inductive Level | person | group (e : Nat)
 deriving DecidableEq, Repr
 
 /-- the attribute used on a population / projector: the key of group entity `e`, `first_person`,
-the key of a role (of the entity at hand), or anything else -/
-inductive Shortcut | entity (e : Nat) | firstPerson | role (r : Role) | other
+the key of a role (of the entity at hand), `members` (the persons population a group population
+holds: a plain attribute, not a projector), or anything else -/
+inductive Shortcut | entity (e : Nat) | firstPerson | role (r : Role) | members | other
 deriving Repr
 
 inductive Proj | toPerson (e : Nat) | firstPerson (e : Nat) | uniqueRole (e : Nat) (r : Role)
@@ -372,17 +390,27 @@ def resolve (w : World) : Level → Shortcut → Option (List Proj × Level)
     else none
   | _, _ => none
 
+/-- attribute chain `population.s1.s2…` continued from the projectors `acc` (outermost first):
+projectors and the level on which the final method is called.  `members` on a group population
+(or on a projector whose reference entity is one: `Projector.__getattr__` finds no projector
+and hands the attribute of the reference entity back as it is, since a population has no
+`projectable` mark) is the persons population itself: the projectors met so far are dropped.
+On the persons population `members` is no attribute. -/
+def resolveAcc (w : World) : List Proj → Level → List Shortcut → Except String (List Proj × Level)
+  | acc, lvl, [] => .ok (acc, lvl)
+  | acc, lvl, s :: ss =>
+    match s, lvl with
+    | .members, .group _ => resolveAcc w [] .person ss
+    | .members, .person => .error "AttributeError"
+    | .entity _, _ | .firstPerson, _ | .role _, _ | .other, _ =>
+      match resolve w lvl s with
+      | none => .error "AttributeError"
+      | some (prs, lvl') => resolveAcc w (acc ++ prs) lvl' ss
+
 /-- attribute chain `population.s1.s2…`: projectors, outermost first, and the level on which the
 final method is called -/
-def resolveChain (w : World) : Level → List Shortcut → Except String (List Proj × Level)
-  | lvl, [] => .ok ([], lvl)
-  | lvl, s :: ss =>
-    match resolve w lvl s with
-    | none => .error "AttributeError"
-    | some (prs, lvl') =>
-      match resolveChain w lvl' ss with
-      | .error e => .error e
-      | .ok (ps, l) => .ok (prs ++ ps, l)
+def resolveChain (w : World) (lvl : Level) (ss : List Shortcut) : Except String (List Proj × Level) :=
+  resolveAcc w [] lvl ss
 
 /-- `Projector.transform` -/
 def transform {α} (w : World) (zero : α) : Proj → List α → Except String (List α)
